@@ -1,7 +1,14 @@
 #!/bin/bash
-# Builds the framework from files on disk only (offline) and warms the build caches.
+# Builds the framework from files on disk only (offline) and warms the build caches:
+#  bin/vtest      engines S/L/D (go1.26.8, -tags verif)
+#  bin/vtest-x    the same with the vsync overlay (schedule explorer, C04/C13/C20)
+#  bin/vtest-race the same with the race detector (engine R, C20)
 cd "$(dirname "$0")" || exit 1
 export GOFLAGS=-mod=mod GOPROXY=off GOSUMDB=off GOTOOLCHAIN=local
+GO=/opt/veriftools/go1.26.8/bin/go
 mkdir -p bin .work/parts evidence/replays
-/opt/veriftools/go1.26.8/bin/go test -c -vet=off -tags verif -o bin/vtest ./run || exit 1
+$GO test -c -vet=off -tags verif -o bin/vtest ./run || exit 1
+tools/mkoverlay.sh || exit 1
+$GO test -c -vet=off -overlay .work/overlay.json -tags verif,vsync -o bin/vtest-x ./run || exit 1
+$GO test -c -race -vet=off -tags verif -o bin/vtest-race ./run || exit 1
 echo setup ok
